@@ -533,7 +533,13 @@ def _dict_array_comp(data):
 
         # Compose complex numbers.
         if '__complex' in key:
-            value = np.asarray(value)[0, ...] + 1j*np.asarray(value)[1, ...]
+            # Assign the parts (`real + 1j*imag` turns an infinite imaginary
+            # part into a NaN real part).
+            parts = np.asarray(value)
+            value = np.empty(parts.shape[1:],
+                             dtype=np.result_type(parts.dtype, np.complex64))
+            value.real, value.imag = parts[0, ...], parts[1, ...]
+            value = value[()]  # 0-d arrays become scalars, as before.
             key = key.replace('__complex', '')
 
         # Store this key-value-pair.
